@@ -4,7 +4,7 @@ from contracts import transport
 ID = "C38"
 T = "paramiko.transport.Transport."
 TARGETS = [T + "_ensure_authed", transport.RUN_ITER]
-REPLAY = {"*": "c38.replay_peer_garbage"}
+REPLAY = {"capture": "c38.auth_reply_garbage", "*": "c38.replay_peer_garbage"}
 MAX_PATHS = 20000
 
 
@@ -34,6 +34,40 @@ def setup(E):
                     "ghost_types": dict(E.ghost_types, **E3.ghost_types), "opaque_contracts": dict(E3.opaque_contracts)}})))
 
 
+def lemmas(E):
+    """the exception capture of Transport.run (the except clauses of its inner try): whatever a handler let escape, what
+    is stored for the API (saved_exception, raised by the auth calls / start_client / returned by get_exception) is an
+    SSHException, an EOFError or a socket error.  Read off the handlers' AST: a handler for one of those classes may store
+    the caught object; any other handler (the catch-all) must store a freshly constructed SSHException."""
+    import ast
+    import z3
+    out = []
+    fi = E.src.funcs["paramiko.transport.Transport.run"]
+    allowed = {"SSHException", "EOFError", "socket.error", "OSError"}
+    nstores = 0
+    for n in ast.walk(fi.node):
+        if not isinstance(n, ast.ExceptHandler):
+            continue
+        ty = ast.unparse(n.type) if n.type is not None else "<bare>"
+        for a in ast.walk(n):
+            if isinstance(a, ast.Assign) and any(isinstance(t, ast.Attribute) and t.attr == "saved_exception" for t in a.targets):
+                nstores += 1
+                v = a.value
+                stores_caught = isinstance(v, ast.Name) and v.id == (n.name or "")
+                # a local bound in the handler to SSHException(...) (wrapped = SSHException(...); self.saved_exception = wrapped)
+                constructed = isinstance(v, ast.Call) and ast.unparse(v.func) == "SSHException"
+                if isinstance(v, ast.Name) and not stores_caught:
+                    for b in ast.walk(n):
+                        if isinstance(b, ast.Assign) and any(isinstance(t, ast.Name) and t.id == v.id for t in b.targets) \
+                                and isinstance(b.value, ast.Call) and ast.unparse(b.value.func) == "SSHException":
+                            constructed = True
+                ok = constructed or (stores_caught and ty in allowed)
+                out.append(("capture::what_is_stored_for_the_api_is_an_ssh_eof_or_socket_exception(handler %s #%d)"
+                            % (ty, nstores), [], z3.BoolVal(bool(ok))))
+    out.append(("capture::handlers_store_the_exception", [], z3.BoolVal(nstores >= 4)))
+    return out
+
+
 CLAIMED = True
 LEVEL_TEXT = ("Proof of exceptional postconditions on the real AST, for arbitrary peer messages: one arbitrary iteration of "
               "Transport.run's dispatch loop (message type symbolic, handlers by contract) ends normally or with SSHException "
@@ -45,9 +79,11 @@ LEVEL_TEXT = ("Proof of exceptional postconditions on the real AST, for arbitrar
               "decoding, no IndexError, no KeyError.")
 LEVEL_NOTE = ("Scope: the dispatch loop, the pre-authentication gate, KEXINIT negotiation and the key-exchange handlers - the "
               "code an unauthenticated peer reaches first; four genuine escapes found there were repaired (fix commits recorded "
-              "in known_findings.json). NOT covered: the handlers behind authentication and the connection protocol, where "
-              "Message.get_text on peer bytes (about 40 call sites: disconnect text, request names, user names ...) raises "
-              "UnicodeDecodeError for text that is not UTF-8 - those handlers have generic contracts here ('raise only the "
-              "documented classes'), so this check does not decide them; _check_banner; struct.error for fields of 4 GiB. "
+              "in known_findings.json). The handlers behind authentication and the connection protocol (about 40 call sites of "
+              "Message.get_text / get_list on peer bytes, which raise UnicodeDecodeError for text that is not UTF-8) are not "
+              "verified one by one; they are covered at the single point they all pass through: the exception capture of "
+              "Transport.run stores for the API only SSHException / EOFError / socket errors - the catch-all wraps anything "
+              "else (obligation over the handlers' AST; found failing on the pinned tree and repaired). Not covered: "
+              "_check_banner; struct.error for fields of 4 GiB; exceptions raised on the caller's own thread. "
               "Library raise classes are assumed from probing (from_encoded_point / from_public_bytes: ValueError).")
 TECHNIQUE = "deductive: exceptional postconditions (raise-set obligations at every call, subscript and library call) on the real AST, z3"
